@@ -139,7 +139,7 @@ def jobs(prop, tier):
             J.append(Job('C14', 'stream%d' % l, 'C14_enhanced.cpp', defs={'H_STREAM': None, 'L': l}, unwind=l + 3, unwindset={'cstrlen': 34, 'put_field': 34, 'vs_copy': 34}, shape='R', timeout=3000 if T else 280,
                          bounds='every stream of %d arbitrary bytes from every arbitration state, against a reference decoder written from docs/enhanced_proto.md' % l, **DEV))
         for l in ((2, 3) if T else (2,)):
-            J.append(Job('C14', 'chunk%d' % l, 'C14_enhanced.cpp', defs={'H_CHUNK': None, 'L': l}, unwind=l + 2, unwindset={'cstrlen': 34, 'put_field': 34, 'vs_copy': 34, 'basic_ostringstreamIcSt11char_traitsIcESaIcEE3strEv': 34}, shape='R', timeout=3000 if T else 280,
+            J.append(Job('C14', 'chunk%d' % l, 'C14_enhanced.cpp', defs={'H_CHUNK': None, 'L': l}, unwind=2 * l + 2, unwindset={'cstrlen': 34, 'put_field': 34, 'vs_copy': 34, 'basic_ostringstreamIcSt11char_traitsIcESaIcEE3strEv': 34}, shape='R', timeout=3000 if T else 280,
                          bounds='every stream of %d arbitrary bytes, every split position, every initial arbitration state' % l, **DEV))
     if prop == 'C16':
         pairs = [(1, 1), (1, 3), (2, 2), (2, 3), (2, 5), (1, 4), (3, 3)] if not T else [(a, b) for a in (1, 2, 3) for b in range(1, 8) if b >= a]
